@@ -358,7 +358,7 @@ CASES["C09"] = [
     ("extent not advanced", "mutant", LAYOUTF, "                current_stride = current_stride * layout_bound\n", "", ["C09.radix"]),
     ("granularity helper subtracts", "mutant", LAYOUTF, "current_stride += (temporal_access_granularity - current_stride) % 64", "current_stride -= (current_stride - temporal_access_granularity) % 64", ["C09.monotone"]),
     ("granularity parentheses dropped", "mutant", LAYOUTF, "current_stride += (spatial_access_granularity - current_stride) % 64", "current_stride += spatial_access_granularity - current_stride % 64", ["C09.monotone"]),
-    ("fill with bound 2", "mutant", LAYOUTF, "stride.append(Stride(current_stride, 1))", "stride.append(Stride(current_stride, 2))", ["C09.radix"]),
+    ("cover: remaining size doubled", "mutant", LAYOUTF, "                remaining = size // covered if size > 0 else 1", "                remaining = 2 * (size // covered) if size > 0 else 1", ["C09.radix"]),
     ("tiling without divisibility", "mutant", LAYOUTF, "                    if size_remaining % schedule_bound != 0:\n                        to_tile = False\n", "                    if False:\n                        to_tile = False\n", ["C09.radix"]),
     ("start extent 0", "mutant", LAYOUTF, "            current_stride = 1\n", "            current_stride = 0\n", ["C09.radix"]),
     ("canonicalize merges without step test", "mutant", TSTRIDE, "                and prev_stride.step * prev_stride.bound == stride.step\n", "", ["C09.canon"]),
@@ -699,4 +699,9 @@ CASES["C07"] += [
 
 CASES["C07"] += [
     ("reintroduce F-31 (stale pre-threaded in_state kept)", "mutant", "snaxc/transforms/convert_linalg_to_accfg.py", "@revert:3b5c6cd~1", "", ["C07.weave-link"]),
+]
+
+CASES["C09"] += [
+    ("reintroduce F-32 (uncovered dimensions get bound 1)", "mutant", "snaxc/transforms/set_memory_layout.py", "@revert:ec486c0~1", "", ["C09.radix"]),
+    ("cover: remaining stride inserted without advancing the extent", "mutant", "snaxc/transforms/set_memory_layout.py", "                    stride.insert(0, Stride(current_stride, remaining))\n                    current_stride = current_stride * remaining\n", "                    stride.insert(0, Stride(current_stride, remaining))\n", ["C09.radix"]),
 ]
